@@ -35,6 +35,13 @@ CHECKS = {
         technique="seeded history simulation (order of first use, failing requests, hash seed) in forked pristine interpreters; refinement of an identity/lattice/bit-array model after every step",
         ref="6/C13",
     ),
+    "C15": dict(
+        level="exploration",
+        text="Wrapper entities around std.SyncFlag / std.Mailbox (all 16 tx/rx delay pairs, one process or two contexts, consumer as plain function / await receive() / async with / Mailbox.receive, guarded and unguarded set, with and without reset: 262 configurations) are compiled by the real compiler and run in VSIM under seeded producer/consumer agents (unique payloads), stalls of either context through its step condition (uniform and aligned to the delay line right after a set/clear), resets mid hand-over, process order and input offsets. An event-history oracle is evaluated while the run proceeds: every effective set consumed exactly once, in order, payload unmodified; a set while set has no effect; no second effective set while one is outstanding; no consumption without an outstanding set; is_set/is_clear complementary; bounded progress once faults stop.",
+        note="Trusted: VSIM, the agents, the history oracle. One clock for both contexts. Bounded progress uses 2*(tx+rx)+8 clocks.",
+        technique="deterministic simulation of emitted VHDL with seeded agents and stall/reset fault injection; exactly-once event-history oracle + bounded liveness",
+        ref="6/C15",
+    ),
 }
 
 NOT_APPLICABLE = {
